@@ -19,6 +19,9 @@ func c11LongHistory(r *Run) {
 	stalled := t.Chance(2, 3)
 	stalledFirst := t.Chance(1, 2)
 	lateAt := t.Int(n + 1)
+	if t.Chance(1, 2) {
+		lateAt = 1025 + t.Int(n-1024) // the log is already longer than a thousand messages when the late subscriber arrives
+	}
 	r.Describe("persistent GoChannel, %d messages; a subscription that never reads=%v (subscribed first=%v); one subscription from the start, one subscribing after %d messages, both ack at once", n, stalled, stalledFirst, lateAt)
 	ps := gochannel.NewGoChannel(gochannel.Config{Persistent: true, OutputChannelBuffer: int64(simrt.Pick(t, 0, 1, 16))}, nil)
 	ctx := context.Background()
